@@ -24,7 +24,7 @@ PROPS = {
         "assumptions": "L3",
     },
     "C03": {
-        "units": ["l1_error_api", "c03_error_spans"],
+        "units": ["l1_error_api", "c03_error_spans", "c04_syn_conversion"],
         "gen": [{"corpus": "structs", "mode": "full"}, {"corpus": "enums", "mode": "full"}, {"corpus": "elems", "mode": "full"}],
         "classes": r"postcondition|invariant|post-condition of closure",
         "level_text": "with_span is proved first-writer-wins on the real body (r == e_with_span(self, span(node))); the emitted parsers are proved equal to an oracle in which "
@@ -32,7 +32,7 @@ PROPS = {
         "level_note": "'inside the item' is modelled as equality with the span of that node (geometric containment is syn's). Proof per program; programs sampled. Span hand-down in flatten (into_vec, proved against flat_spans; F5 fixed in /repo) is unit c03_error_spans; the trait default methods' span attachment is proved in unit c15_routing (C15).",
         "design_ref": "DESIGN.md section 6 C03",
         "assumptions": "L3",
-        "not_covered": ["From<Error> for syn::Error (explicit span else call site + path in the message)", "SpannedValue/Flag/PathList spans are under C12/C13"],
+        "not_covered": ["diagnostics-feature path (single_to_diagnostic)", "geometric meaning of spans (Span opaque)", "SpannedValue/Flag/PathList spans are under C12/C13"],
     },
     "C08": {
         "units": ["c08_parse_attribute"],
@@ -301,7 +301,7 @@ PROPS = {
     "C07": {
         "ignore_tags": True,
         "classes_text": r"assertion failed :: .*(__live|__armed)",
-        "units": ["c11_ints", "c11_nonzero", "c11_misc", "c13_syn_values", "c12_wrappers", "c15_routing", "c18_shape", "c16_body_conversion", "c16_generics", "c14_maps", "c14_key_ident", "c08_parse_attribute"],
+        "units": ["c11_ints", "c11_nonzero", "c11_misc", "c13_syn_values", "c12_wrappers", "c15_routing", "c18_shape", "c16_body_conversion", "c16_generics", "c14_maps", "c14_key_ident", "c08_parse_attribute", "c04_syn_conversion", "c04_error_tree", "c05_accumulator", "c17_sibling_alts"],
         "gen": [{"corpus": "structs", "mode": "full"}, {"corpus": "enums", "mode": "full"}, {"corpus": "elems", "mode": "full"}, {"corpus": "supports", "mode": "full"}],
         "classes": r"precondition not satisfied|overflow|underflow|division by zero|index out of|unreachable|panic",
         "level_text": "Every expect()/unwrap/index/arithmetic site and every accumulator-armed precondition in the emitted parsers is a proved Verus precondition for all inputs "
@@ -311,17 +311,24 @@ PROPS = {
         "assumptions": "L3",
     },
     "C04": {
-        "units": ["c04_error_tree", "l1_error_api"],
+        "units": ["c04_error_tree", "l1_error_api", "c04_syn_conversion"],
         "level_text": "ErrorKind::len / Error::len / at / prepend_at / into_vec / flatten / multiple / new are proved on their real bodies against a tree oracle over the real datatype "
                       "(leaves, flat with full outer-to-inner paths); count = number of leaves, flatten yields exactly the leaves in order, idempotence and len(flatten)=len are proved lemmas.",
-        "level_note": "Trusted: rewrite R2 (iterator adapter chains in len/into_vec replaced by their defining loops), Vec/String clone and extend contracts, Display text (R11). Not covered: Display rendering, IntoIterator, syn::Error conversion.",
+        "level_note": "Unit c04_syn_conversion adds: From<Error> for syn::Error (view of the result == one (span, message) diagnostic per flattened leaf, in order: spanned leaf -> kind text at its span, unspanned leaf -> call site + the whole leaf's text incl. its path), "
+                      "write_errors, Error::span, IntoIterator (one level) + both next(), and the STRUCTURE of Display for Error (kind text, then ` at ` + locations joined by `/` iff a path exists). "
+                      "Trusted: rewrite R2 (iterator adapter chains replaced by their defining loops / a verified model of iter::Map), syn::Error modelled as its list of diagnostics, Vec/String clone and extend contracts, message text of each kind (R11).",
         "design_ref": "DESIGN.md section 6 C04",
         "assumptions": [
             "R2: `items.iter().map(Error::len).sum()` and `errors.into_iter().flat_map(|error| ..).collect()` are replaced by their defining loops; the closure body is kept verbatim",
             "usize sums in len() need leaves <= usize::MAX (stated as a precondition)",
             "Vec<String>::clone yields an equal vector; Vec::extend(Vec) appends in order (std, assumed)",
+            "syn::Error is an opaque value whose view is its list of (span, message) diagnostics: new = one element, combine = append, into_compile_error = a function of the list (syn 2.x error.rs)",
+            "Span::call_site() is an uninterpreted constant; the conversion's input is `proper` (every bundle has >= 2 children: invariant of multiple/finish/flatten)",
+            "std::iter::once / Once::next assumed; vec::IntoIter from vstd; `.map(syn::Error::from)` replaced by a verified model of iter::Map; `for x in it` written as its desugaring",
+            "Display::fmt: write!(f, \"<lit>{}\", a) appends lit + Display text of a on Ok; [String]::join = join_spec; Formatter text uninterpreted",
         ],
-        "not_covered": ["Display for Error/ErrorKind (message text)", "IntoIterator for Error (std iterator types)", "From<Error> for syn::Error / write_errors (one diagnostic per leaf)"],
+        "not_covered": ["Display for ErrorKind (per-kind message text, R11)", "write_errors / emit under cfg(feature = \"diagnostics\")",
+                        "the link display_spec::<Error> == text written by fmt is a stated hypothesis (display_is_fmt) of lemma_unspanned_diag_has_path, not proved"],
     },
     "C05": {
         "units": ["c05_accumulator", "l1_error_api"],
